@@ -322,6 +322,66 @@ class ApiSession:
             ths = [api.spawn(f"U{i + 1}", worker, i) for i in range(len(spec["texts"]))]
             for t in ths:
                 t.join()
+        elif kind == "client_lock":
+            # the common client pattern "my callback stores under my lock; my other thread (un)registers / closes under my lock": the library
+            # must not hold anything of its own across a notification that the (un)registration needs — otherwise reader and client deadlock
+            import ynca.connection as YC
+            from .realobj import subunit_class
+            conn = YC.YncaConnection("virtual://port")
+            conn.connect(None, 0)
+            obj = subunit_class(spec["class"])(conn)
+            obj.initialize()
+            L = sched.VLock()
+            seen = []
+
+            def ucb(i):
+                def cb(fn, v):
+                    with L:
+                        seen.append(("u", i, fn))
+                        api.emit("upd_cb", cb=i, fn=fn)
+                return cb
+
+            def mcb(i):
+                def cb(st, su, fn, v):
+                    with L:
+                        api.emit("lk_msg_cb", cb=i, fn=fn)
+                return cb
+            ucbs = {i: ucb(i) for i in range(1, 6)}
+            mcbs = {i: mcb(i) for i in range(1, 6)}
+            for i in (1, 2):
+                obj.register_update_callback(ucbs[i])
+                conn.register_message_callback(mcbs[i])
+
+            def other():
+                for op in spec["ops2"]:
+                    if op[0] == "sleep":
+                        api.sleep(op[1])
+                        continue
+                    with L:
+                        api.emit("lk_op", op=op)
+                        try:
+                            if op[0] == "unreg_update":
+                                obj.unregister_update_callback(ucbs[op[1]])
+                            elif op[0] == "reg_update":
+                                obj.register_update_callback(ucbs[op[1]])
+                            elif op[0] == "unreg_msg":
+                                conn.unregister_message_callback(mcbs[op[1]])
+                            elif op[0] == "reg_msg":
+                                conn.register_message_callback(mcbs[op[1]])
+                            elif op[0] == "close_subunit":
+                                obj.close()
+                        except KeyError:
+                            pass
+                        if op[0] == "hold":
+                            api.sleep(op[1])
+            th = api.spawn("U1", other)
+            th.join()
+            api.sleep(spec.get("settle", 2.0))
+            api.emit("lk_done", seen=len(seen))
+            obj.close()
+            conn._verif_final = True
+            conn.close()
+            api.sleep(5)
         elif kind == "set_race":
             # descriptors and converters are class-level objects shared by every instance of a subunit class (and, through base classes and
             # shared mix-ins, by several classes): what an assignment transmits must depend on the assigned value only — not on what another
